@@ -19,17 +19,50 @@ impl Visitor<'_> for CacheControlCalculate<'_> {
         ctx: &mut VisitorContext<'_>,
         _selection_set: &Positioned<SelectionSet>,
     ) {
-        if let Some(MetaType::Object { cache_control, .. }) = ctx.current_type() {
-            *self.cache_control = self.cache_control.merge(cache_control);
+        match ctx.current_type() {
+            Some(MetaType::Object { cache_control, .. }) => {
+                *self.cache_control = self.cache_control.merge(cache_control);
+            }
+            // The object that will be returned is not known yet, so be as
+            // restrictive as any of the objects this selection can yield.
+            Some(ty @ (MetaType::Interface { .. } | MetaType::Union { .. })) => {
+                for object in possible_objects(ctx, ty) {
+                    if let MetaType::Object { cache_control, .. } = object {
+                        *self.cache_control = self.cache_control.merge(cache_control);
+                    }
+                }
+            }
+            _ => {}
         }
     }
 
     fn enter_field(&mut self, ctx: &mut VisitorContext<'_>, field: &Positioned<Field>) {
-        if let Some(registry_field) = ctx
-            .parent_type()
-            .and_then(|parent| parent.field_by_name(&field.node.name.node))
-        {
+        let Some(parent) = ctx.parent_type() else {
+            return;
+        };
+        let name = field.node.name.node.as_str();
+        if let Some(registry_field) = parent.field_by_name(name) {
             *self.cache_control = self.cache_control.merge(&registry_field.cache_control);
         }
+        // A field selected on an interface is resolved by one of the
+        // implementing objects, which may declare a policy of its own for it.
+        if let MetaType::Interface { .. } = parent {
+            for object in possible_objects(ctx, parent) {
+                if let Some(registry_field) = object.field_by_name(name) {
+                    *self.cache_control = self.cache_control.merge(&registry_field.cache_control);
+                }
+            }
+        }
     }
+}
+
+fn possible_objects<'a>(
+    ctx: &VisitorContext<'a>,
+    ty: &'a MetaType,
+) -> impl Iterator<Item = &'a MetaType> {
+    let registry = ctx.registry;
+    ty.possible_types()
+        .into_iter()
+        .flatten()
+        .filter_map(move |name| registry.types.get(name))
 }
